@@ -435,7 +435,7 @@ def write_capture(b, workdir, pkts=None, container=None, keys=None, name="in"):
                 body = struct.pack(c["endian"] + "III", 0, 0, 0)
             items.insert(pos % (len(items) + 1), ("raw", btype, body))
         path = os.path.join(workdir, name + ".pcapng")
-        netio.write_pcapng(path, items, endian=c["endian"], tsresol=c["tsresol"], tsoffset=c["tsoffset"])
+        netio.write_pcapng(path, items, endian=c["endian"], tsresol=c["tsresol"], tsoffset=c["tsoffset"], offset_first=bool(c.get("offset_first")))
     else:
         path = os.path.join(workdir, name + ".pcap")
         netio.write_pcap(path, items, endian=c["endian"], nano=c["nano"])
